@@ -21,7 +21,7 @@ ASSUMPTIONS = [
 ]
 MONITORS = "store auditor after every step and inside a post-hook on HashFileDB.add (audits the receiving store after every add call)"
 REQUIRED_COUNTERS = ["inode_only_swaps", "persistent_workspace_steps", "dirs_with_several_large_files", "steps", "audits_after_step", "audits_after_add", "objects_rehashed", "dir_objects_reencoded", "op/stage-dir", "op/stage-file",
-                     "op/upload-stage", "op/add", "op/transfer", "op/save", "op/migrate", "op/gc", "staged_directory_ids_checked", "saves_over_two_data_roots", "op/checkout", "op/verify-rotten", "migrations_rerun", "op/pws-stage", "op/pws-edit", "op/pws-stage-only", "local_mode_checks"]
+                     "op/upload-stage", "op/add", "op/transfer", "op/save", "op/migrate", "op/gc", "staged_directory_ids_checked", "restaged_workspace_ids_checked", "saves_over_two_data_roots", "op/checkout", "op/verify-rotten", "migrations_rerun", "op/pws-stage", "op/pws-edit", "op/pws-stage-only", "local_mode_checks"]
 
 
 def run_shard(ctx):
@@ -113,7 +113,12 @@ def run_shard(ctx):
                         os.makedirs(p)
                         fp = os.path.join(p, gen.name(rng, odd=0.4))
                         with open(fp, "wb") as f:
-                            f.write(rng.choice(pool) if rng.random() < 0.5 else gen.content(rng, big=0.03))
+                            if rng.random() < 0.08:
+                                # more than one hashing block: a binary first MiB, then CRLF text (the legacy algorithm decides block by block)
+                                f.write(b"\0" + rng.randbytes(2**20 - 1) + b"text line\r\n" * rng.randrange(3, 200))
+                                res.count("binary_head_text_tail_objects")
+                            else:
+                                f.write(rng.choice(pool) if rng.random() < 0.5 else gen.content(rng, big=0.03))
                         return fp
                     files, empties = gen.tree(rng, depth=rng.randrange(0, 4), fanout=3, pool_=pool, dup=0.5, odd=0.35, min_files=1)
                     generated[p] = files
@@ -175,6 +180,22 @@ def run_shard(ctx):
                         else:
                             _s, _m, obj, r = env.stage_and_transfer(odb, pws, algo, shallow=False)
                             rec.append(obj.hash_info.value)
+                            if rng.random() < 0.5:
+                                # straight away: a file below a sub-directory is rewritten in place (the top directory's own stat
+                                # does not change) and the workspace is staged once more for the same store
+                                with open(os.path.join(pws, "sub", "data"), "wb") as f:
+                                    f.write(b"rewritten in place at step %d " % _step + gen.small_content(rng))
+                                _s, _m, obj, r = env.stage_and_transfer(odb, pws, algo, shallow=False)
+                                rec.append(obj.hash_info.value)
+                                res.count("restaged_after_in_place_rewrite_below")
+                            # ... and the id is that of what the workspace holds NOW (it was staged before, then edited)
+                            from ..oracle import H as _H2, canonical_dir_oid as _cdo2, walk_files as _wf2
+
+                            want2 = _cdo2({"/".join(k_): _H2(algo, v_) for k_, v_ in _wf2(pws).items()})
+                            res.count("restaged_workspace_ids_checked")
+                            if obj.hash_info.value != want2:
+                                res.violation("restaged-directory-named-by-an-earlier-listing", f"the long-lived workspace was staged as {obj.hash_info.value}; its current contents hash to {want2}",
+                                              case=cur["case"], detail={"history": hist})
                         res.count("persistent_workspace_steps")
                     elif op == "stage-dir":
                         p = new_ws()
